@@ -6,4 +6,13 @@ def run(ctx):
     g = gr.Gds(ctx)
     gr.rule_codec_agreement(ctx, g, "R01.1")
     gr.rule_field_diagonal(ctx, g, "R01.2")
+    # packed STRANS flag word: both sides place each flag on the manual's bit, hence on the same bit
+    gr.rule_strans_bits_writer(ctx, g, "R01.2w")
+    gr.rule_strans_bits_reader(ctx, g, "R01.2r")
+    # framing both ways: what the writer frames is what the reader unframes, and reading back cannot crash
+    gr.rule_writer_header(ctx, g, "R01.3")
+    gr.rule_exact_reads(ctx, g, "R01.4")
+    from rules import panicrules as pr
+    roots = pr.roots_by_short(ctx.F, ("data::GdsLibrary::from_bytes", "data::GdsLibrary::open", "data::GdsLibrary::load"))
+    pr.rule_panic_free(ctx, "R01.5", roots, "GdsLibrary::from_bytes/open (reading back what was written)", scope_prefixes=["gds21::"], floor=40)
     ctx.assume("value equality of reals is C15 territory and not decided; strings already ending in NUL are outside the claim")
